@@ -164,6 +164,24 @@ def run_pipeline(doc, listing_text, macros_docs=None, all_matches=True, only_add
         return MasterOfPuppets(cfg).perform_matching()
 
 
+def file_route_stream(listing, doc=None):
+    """listing (str or bytes, written verbatim) -> the instruction stream MasterOfPuppets hands to the matcher, through the
+    WHOLE file route (NullDisassembler, ComposableProducer, parser, observers, consumer) - not only the parser."""
+    from jasm.global_definitions import InputFileType, MatchConfig, MatchingReturnMode, MatchingSearchMode
+    from jasm.match import MasterOfPuppets
+
+    with scratch() as d:
+        p = os.path.join(d, "rule.yaml")
+        with open(p, "w") as f:
+            yaml.safe_dump(doc or {"pattern": ["zzzz"]}, f, sort_keys=False)
+        a = os.path.join(d, "in.s")
+        with open(a, "wb") as f:
+            f.write(listing if isinstance(listing, bytes) else listing.encode("utf-8"))
+        cfg = MatchConfig(pattern_pathstr=p, input_file=a, input_file_type=InputFileType.assembly,
+                          return_mode=MatchingReturnMode.all_instructions_string, matching_mode=MatchingSearchMode.all_finds)
+        return MasterOfPuppets(cfg).perform_matching()
+
+
 def decode_stream(s):
     """WF stream text -> [(addr, mnem, [ops])]  (the decoder C10 says exists)"""
     out = []
